@@ -8,6 +8,10 @@ CLAIMED = {
          "Every (writer, option vector, stream parameters, PCM) case of a finite, explicitly listed space is executed on the real crate and compared with the identity oracle; the space is enumerated completely (all sequences over a 6-value alphabet per bit depth up to length L, all option vectors within d deviations, all front-end pairs, a fixed signal-family grid), so within those bounds the claim is a coverage statement, not a sample.",
          "Trusts: rustc, the harness encode/decode wrappers, determinism of the crate (violations replayed twice). Not covered: sample values outside the alphabets/grid, block sizes other than those listed for sample-exhaustive sets.",
          "§4 C01"),
+ "C02": ("bounded-exhaustive enumeration of the C01 input/option space through the real encoder; every finished file judged frame by frame by an independently written strict RFC 9639 validator/decoder (refdec)",
+         "Same finite space as C01 plus FlacStreamWriter frame sequences; the oracle shares no code with the crate (own bit reader, CRCs, MD5, exact untruncated prediction), so self-consistent but non-conforming output is visible.",
+         "Trusts refdec, which is bound to reality by the libFLAC-made fixtures (MD5 match) and by inverting the independently written builder fgen. The RFC's 'depth >= 4' recommendation is not enforced (the crate documents 1..32).",
+         "§4 C02"),
  "C06": ("explicit-state BFS to a fixpoint over read/fill/consume/seek histories on clones of the real seekable readers, exact-state de-duplication through the verif-hooks accessor, reference = cursor over the PCM",
          "All reachable states of each seekable reader under a fixed op alphabet are visited for every file of a seek corpus (channels × depth × seek-table shape × declared/unknown length); every transition is compared with a reference cursor. Fixpoint reached ⇒ every history over the alphabet is covered, of any length.",
          "Trusts the hook to expose all mutable reader state (source position, current sample, decoded frame, buffered remainder, consumed count). Arguments outside the alphabet are not explored.",
@@ -20,10 +24,26 @@ CLAIMED = {
          "All 2^17 (thorough 2^20) ways of splitting a small input into write calls and all ≤2(3)-cut histories of multi-block inputs are executed for every writer front-end and compared byte-for-byte with the one-call reference; reference hashes are compared across 16 worker processes.",
          "PCM content is fixed (position-identifying); values are C01's dimension.",
          "§4 C08"),
+ "C09": ("exhaustive grid over (input length 1..49 × signal × channels × depth × seek policy × declared/undeclared × padding swept across the exact-fit boundary −8..+8 × start offset × extra blocks) on the real writer over a logging in-memory device; oracles: independent validator, device call log, generate_seektable",
+         "≈690k complete encode+finalize runs; every finished image is validated independently (counts, extrema, MD5, every seek point names a real frame, ordering) and the device log proves the audio region is append-only and the header rewrite stays inside [start, first frame).",
+         "PCM from 3 fixed signals; >932067-frame streams only in the thorough tier.",
+         "§4 C09"),
+ "C13": ("fault enumeration with deviation bound 1 (every call index × 4 fault kinds) and 2 (pairs) over an in-memory fault device, executed on the real encode/finalize/write_blocks/update_file/decode paths",
+         "For each scenario the fault-free run fixes N targeted calls; every n<N × {permanent, once, Interrupted, short} is executed (pairs in thorough / on update_file in quick). Oracle: no panic and API Ok ⇒ device contents and results byte-identical to the fault-free run.",
+         "At most 2 faults per run. File-backed wrappers are represented by BufWriter<device> passed by value.",
+         "§4 C13"),
+ "C14": ("crash-point enumeration: every byte prefix of the pre-finalize output of the real writers (append-only log verified) decoded by three real readers against frame extents from the independent decoder",
+         "All ≈245k (configuration, prefix) crash images × 3 readers are executed; the delivered samples must be exactly the PCM of the completely written frames.",
+         "Write reordering by an OS is out of scope (the code issues no syncs); torn writes are covered by byte granularity.",
+         "§4 C14"),
  "C15": ("full-product parameter grids and exhaustive ≤2-cut under/exact/over-fill write histories executed on the real constructors/writers in both build profiles; 'works' judged by the independent decoder",
          "The complete boundary grid of constructor arguments (≈80k calls per writer), every Options setter boundary value, every documented value alone and every cross-axis pair, and every ≤2-cut history that under-, exactly- or over-fills a declared length are executed; nothing is sampled.",
          "Trusts refdec (self-bound to libFLAC fixtures). Triples of documented values only via C01's lattice. Huge declared totals use no_seektable() outside a representative sub-grid (cost).",
          "§4 C15"),
+ "C19": ("bounded-exhaustive enumeration of the C01 space plus adversarial signals × the option lattice through the real encoder; per-frame arithmetic bound evaluated on sizes measured by the independent decoder",
+         "≈1.9M encodes, every frame measured; bound = verbatim bits (+1 bit/sample for one channel under stereo decorrelation) + 32 + 6·channels bytes; constant blocks ≤ 32 + 12·channels bytes.",
+         "Same input bounds as C01; the allowance constants are derived from the format's maximum header/footer sizes.",
+         "§4 C19"),
 }
 NOT_YET = "check not built yet in this revision of /verif (planned in DESIGN.md §4); not claimed until it runs green on the unchanged tree"
 def main():
